@@ -45,7 +45,14 @@ pub fn flow_recv(method: &Method, v10: bool, extra: &[(&str, &str)]) -> Result<F
             f.write(&[], &mut out).map_err(|e| format!("empty body write: {:?}", e))?;
             f.proceed().ok_or_else(|| "empty body not finished".to_string())
         }
-        Some(SendRequestResult::Await100(_)) => Err("unexpected Await100".into()),
+        Some(SendRequestResult::Await100(a)) => match a.proceed().map_err(|e| format!("Await100::proceed: {:?}", e))? {
+            // nobody looked at the socket: the caller gives up waiting and sends the (empty) body
+            ureq_proto::client::flow::Await100Result::SendBody(mut f) => {
+                f.write(&[], &mut out).map_err(|e| format!("empty body write: {:?}", e))?;
+                f.proceed().ok_or_else(|| "empty body not finished".to_string())
+            }
+            ureq_proto::client::flow::Await100Result::RecvResponse(f) => Ok(f),
+        },
         None => Err("head incomplete after ample write".into()),
     }
 }
